@@ -27,7 +27,8 @@ def impl_eval(case):
     out = {"calls": [], "accept": [], "op": None}
     try:
         bb = core.make_bb(names, answers.keyed(case["base"]))
-        facts = [core.f_pysmt(f, names) for f in case["facts"]] or None
+        forms = case.get("fact_forms") or ["pysmt"] * len(case["facts"])
+        facts = [core.fact_arg(f, names, fm) for f, fm in zip(case["facts"], forms)] or None
         with warnings.catch_warnings():
             warnings.simplefilter("ignore")
             ocf = PreOCF.init_system_z(bb, facts=facts, extended=case["extended"])
@@ -43,6 +44,9 @@ def impl_eval(case):
             for op in case["ops"]:
                 if op[0] == "all":
                     out["calls"].append(dict(ocf.compute_all_ranks()))
+                elif op[0] == "accept":
+                    _, b, a = case["queries"][op[1]]
+                    out["calls"].append(bool(ocf.conditional_acceptance(Conditional(core.f_pysmt(b, names), core.f_pysmt(a, names), "q"))))
                 else:
                     out["calls"].append(ocf.rank_world(op[1], force_calculation=(op[0] == "force")))
             out["final"] = dict(ocf.compute_all_ranks())
@@ -101,6 +105,11 @@ def compare(case, impl, resp):
             if got != want:
                 bad = [w for w in worlds if got.get(w) != want[w]][0]
                 fail("compute_all_ranks returns a rank different from the Z-rank", {bad: got.get(bad)}, {bad: want[bad]}, "wrong rank")
+                break
+        elif op[0] == "accept":
+            if got != (acc_s[op[1]] == "1"):
+                fail("conditional_acceptance asked on a partially computed object differs from rank comparison",
+                     {"query": case["queries"][op[1]], "got": got}, acc_s[op[1]] == "1", "wrong acceptance")
                 break
         elif got != want[op[1]]:
             fail(f"rank_world ({op[0]}) returns a rank different from the Z-rank", {op[1]: got}, {op[1]: want[op[1]]}, "wrong rank")
@@ -181,16 +190,20 @@ def run(ctx):
             t = rng.random()
             if t < 0.12:
                 ops.append(["all"])
-            elif t < 0.3:
+            elif t < 0.27 and c["queries"]:
+                ops.append(["accept", rng.randrange(len(c["queries"]))])
+            elif t < 0.42:
                 ops.append(["force", rng.choice(worlds)])
             else:
                 ops.append(["lazy", rng.choice(worlds)])
-        cases.append({"n": n, "base": c["base"], "facts": facts, "extended": extended, "mode_ext": mode_ext, "ops": ops, "queries": c["queries"]})
+        cases.append({"n": n, "base": c["base"], "facts": facts, "fact_forms": [rng.choice(["pysmt", "text", "textmin"]) for _ in facts], "extended": extended, "mode_ext": mode_ext, "ops": ops, "queries": c["queries"]})
     impls = pmap(impl_eval, cases, ctx.procs)
     resps = core.driver_batch([driver_line(c) for c in cases])
     for c, impl, resp in zip(cases, impls, resps):
         ctx.evaluations += len(c["ops"]) + len(c["queries"])
         ctx.bump(f"facts={len(c['facts'])}")
+        for fm in c.get("fact_forms") or []:
+            ctx.bump(f"fact_form={fm}")
         ctx.bump(f"mode={'extended' if c['mode_ext'] else 'strict'}")
         ctx.bump("combination=" + ("no-partition" if resp == "none" else "ok"))
         if resp != "none":
